@@ -493,3 +493,25 @@ Definition same_class (cfg : config) (p4 p6 : pkt) : Prop :=
   in_any (k_dst p4) (f_exc f4) = in_any (k_dst p6) (f_exc f6) /\
   in_any (k_dst p4) (f_inc f4) = in_any (k_dst p6) (f_inc f6) /\
   dns_hit cfg f4 p4 = dns_hit cfg f6 p6.
+
+(* ------------------------------------------------------------------ TPROXY mode: mangle table *)
+
+(* inbound selection in TPROXY mode (the tunnel-port exemption only exists in the nat table) *)
+Definition tp_selected (cfg : config) (p : pkt) : bool :=
+  match in_inc cfg with
+  | PNone => false
+  | PStar => negb (mem (k_dport p) (in_exc cfg))
+  | PList l => mem (k_dport p) l
+  end.
+
+(* mangle table, PREROUTING hook.  VAccept covers "diverted" (marked, accepted) as well. *)
+Definition spec_mangle_pre (cfg : config) (fm : fam) (p : pkt) : verdict :=
+  if tproxy cfg && mem (k_in p) (excl_ifs cfg) then VAccept else
+  if drop_invalid cfg && k_inv p then VDrop else
+  if negb (tproxy cfg) then VAccept else
+  if negb (is_tcp p) then VAccept else
+  if k_mark p =? tmark cfg then VAccept else
+  if cidr_match (f_pass fm) (k_src p) && (k_in p =? lo) then VAccept else
+  if (k_in p =? lo) && negb (k_mark p =? outbound_mark) then VAccept else
+  if tp_selected cfg p && negb (k_est p) && negb (cidr_match (f_loop fm) (k_dst p))
+  then VTproxy (tmark cfg) (in_port cfg) else VAccept.
